@@ -63,7 +63,7 @@ type image struct {
 
 // openImage materialises the image as a data dir, opens it and, if that
 // succeeds, reads the state.
-func openImage(base string, earlier map[string][]byte, lastName string, img image) (opened bool, openErr error, state map[string]kvmodel.Transfer, readErr error) {
+func openImage(base string, earlier map[string][]byte, lastName string, img image, keys []string) (opened bool, openErr error, state map[string]kvmodel.Transfer, readErr error) {
 	dir := scratchDir(base, "img")
 	defer os.RemoveAll(dir)
 	logDir := filepath.Join(dir, aof.LogDir)
@@ -83,7 +83,7 @@ func openImage(base string, earlier map[string][]byte, lastName string, img imag
 		return false, err, nil, nil
 	}
 	defer kv.Stop()
-	st, err := readAll(kv, keyAlphabet, false)
+	st, err := readAll(kv, keys, false)
 	return true, nil, st, err
 }
 
@@ -137,14 +137,14 @@ func c22Witness(base string) bool {
 		return false
 	}
 	copy(seg[b[1]+hdr:b[2]], payload)
-	opened, _, state, rerr := openImage(base, nil, segs[0], image{Kind: "garbage", data: seg})
+	opened, _, state, rerr := openImage(base, nil, segs[0], image{Kind: "garbage", data: seg}, keyAlphabet)
 	return opened && rerr == nil && string(state["a"].Simple) == "v1" && string(state["b"].Simple) == "v3"
 }
 
 func TestC22(t *testing.T) {
 	const id = "C22"
 	rec := ev.New(t, id)
-	rec.Rule("rapid-generated aof histories (5..25 mutations as in C21, small payloads so that the last segment stays below 64 KiB; in the thorough tier also 64 KiB payloads and multi-segment logs) are run to a clean stop; then EVERY truncation offset of the last segment file (for segments above 64 KiB: every offset inside the last three entries plus 400 sampled ones) and, for each of the last three entries, zero fill and random fill of entry suffixes (every suffix for entries up to 160 bytes, else 48 sampled) and the rewrite of the entry as a data-less, checksum-less LogEntry of the same length is materialised as a separate data directory and opened with aof.New. Oracle: aof.New fails, or Get/PrefixList of all alphabet keys equal the kvmodel state after some prefix of the acknowledged (accepted) mutations. One evaluation = one image. Non-trivial: the damage starts strictly inside an entry. Distinct = distinct (history, image).")
+	rec.Rule("rapid-generated aof histories (5..25 mutations as in C21, small payloads so that the last segment stays below 64 KiB; in the thorough tier also 64 KiB payloads and multi-segment logs) - one history in three additionally holds ONE Import of 65/100/130/200 keys (a range hand-over; the state is then judged over the alphabet plus all imported keys, and the cuts are every entry boundary -2..+2, the last three entries and 600 sampled offsets) - are run to a clean stop; then EVERY truncation offset of the last segment file (for segments above 64 KiB: every offset inside the last three entries plus 400 sampled ones) and, for each of the last three entries, zero fill and random fill of entry suffixes (every suffix for entries up to 160 bytes, else 48 sampled) and the rewrite of the entry as a data-less, checksum-less LogEntry of the same length is materialised as a separate data directory and opened with aof.New. Oracle: aof.New fails, or Get/PrefixList of all alphabet keys equal the kvmodel state after some prefix of the acknowledged (accepted) mutations. One evaluation = one image. Non-trivial: the damage starts strictly inside an entry. Distinct = distinct (history, image).")
 	rec.Assume("a lost tail is a truncation of the last segment file, a torn write is an entry whose suffix holds zeros or arbitrary bytes; earlier segments were fsynced when the log cycled (wal.cycle) and are intact",
 		"a CRC-64 collision of a damaged entry is not expected within the explored images")
 	rec.Note("fault_space", "per history: all truncation offsets of the last segment (complete for segments <= 64 KiB) and suffix fills of the last three entries")
@@ -165,6 +165,26 @@ func TestC22(t *testing.T) {
 			}
 		}
 		hist = append(hist, muts...)
+		// a transfer of many keys in ONE Import (a node taking over a range): a single
+		// acknowledged mutation whose log record is far larger than the others'. The state is
+		// then judged over the alphabet plus all imported keys.
+		allKeys := keyAlphabet
+		bulk := rapid.IntRange(0, 2).Draw(t, "bulkImport") == 0
+		if bulk {
+			nBulk := rapid.SampledFrom([]int{65, 100, 130, 200}).Draw(t, "bulkKeys")
+			imp := op{Kind: "Import"}
+			for i := 0; i < nBulk; i++ {
+				k := fmt.Sprintf("bulk-%03d", i)
+				x := xfer{Val: &valSpec{N: 3 + i%5, Tag: byte('a' + i%26)}}
+				if i%9 == 0 {
+					x.Children = []string{"c1", "c2"}
+				}
+				imp.Keys, imp.Transfers = append(imp.Keys, k), append(imp.Transfers, x)
+			}
+			at := rapid.IntRange(0, len(hist)).Draw(t, "bulkAt")
+			hist = append(hist[:at:at], append([]op{imp}, hist[at:]...)...)
+			allKeys = append(append([]string{}, keyAlphabet...), imp.Keys...)
+		}
 		histKey := opsKey(hashSpec{Name: "chord"}, hist)
 
 		// run the history; remember the model state after every accepted mutation
@@ -174,13 +194,13 @@ func TestC22(t *testing.T) {
 			t.Fatalf("harness: cannot create aof store: %v", err)
 		}
 		defer os.RemoveAll(dir)
-		legal := map[string]int{kvmodel.New(kvmodel.HashFn(chord.Hash)).Digest(keyAlphabet, false): 0}
+		legal := map[string]int{kvmodel.New(kvmodel.HashFn(chord.Hash)).Digest(allKeys, false): 0}
 		for i, o := range hist {
 			if mm := run.mutate(rec, id, o); mm != nil {
 				run.kv.Stop()
 				rec.Fail(t, mm.Sig, map[string]any{"history": hist, "failed_at": i, "why": mm.Text}, "while building the log, step %d: %s", i, mm.Text)
 			}
-			d := run.tr.m.Digest(keyAlphabet, false)
+			d := run.tr.m.Digest(allKeys, false)
 			if _, ok := legal[d]; !ok {
 				legal[d] = len(run.accepted)
 			}
@@ -221,7 +241,37 @@ func TestC22(t *testing.T) {
 		cut := func(off int) {
 			images = append(images, image{Kind: "cut", Offset: off, inside: !isBoundary[off], data: last[:off]})
 		}
-		if len(last) <= 64<<10 {
+		if bulk && len(last) > 4<<10 {
+			// every entry boundary -2..+2 (a lost tail that ends between two records), every
+			// offset inside the last three entries up to 512 bytes each (else 200 sampled
+			// ones), and 600 sampled offsets
+			seen := map[int]bool{}
+			add := func(off int) {
+				if off >= 0 && off <= len(last) && !seen[off] {
+					seen[off] = true
+					cut(off)
+				}
+			}
+			for _, b := range bounds {
+				for d := -2; d <= 2; d++ {
+					add(b + d)
+				}
+			}
+			for e := firstOfLast3; e < nEntries; e++ {
+				if bounds[e+1]-bounds[e] <= 512 {
+					for off := bounds[e]; off <= bounds[e+1]; off++ {
+						add(off)
+					}
+				} else {
+					for i := 0; i < 200; i++ {
+						add(bounds[e] + rng.Intn(bounds[e+1]-bounds[e]+1))
+					}
+				}
+			}
+			for i := 0; i < 600; i++ {
+				add(rng.Intn(len(last) + 1))
+			}
+		} else if len(last) <= 64<<10 {
 			for off := 0; off <= len(last); off++ {
 				cut(off)
 			}
@@ -282,14 +332,18 @@ func TestC22(t *testing.T) {
 						o = true
 					}
 				}()
-				return openImage(base, earlier, lastName, img)
+				return openImage(base, earlier, lastName, img, allKeys)
 			}()
 			doc := func(why string) any {
 				return map[string]any{"history": hist, "last_segment": lastName, "segment_bytes": len(last), "entry_starts": bounds, "image": img, "why": why}
 			}
+			labels := []string{label}
+			if bulk {
+				labels = append(labels, "history:has-bulk-import")
+			}
 			rec.Case(img.inside, fmt.Sprintf("%s|%s|%d|%d", histKey, img.Kind, img.Offset, fillSeed), func() any {
 				return map[string]any{"mutations": len(hist), "segment_bytes": len(last), "image": img, "opened": opened}
-			}, label)
+			}, labels...)
 			if !opened {
 				refusals++
 				_ = openErr
@@ -299,7 +353,7 @@ func TestC22(t *testing.T) {
 			if readErr != nil {
 				rec.Fail(t, "aof-torn-log-opened-but-unreadable", doc(readErr.Error()), "image %s@%d opened but reading failed: %v", img.Kind, img.Offset, readErr)
 			}
-			d := digestOf(state, keyAlphabet)
+			d := digestOf(state, allKeys)
 			if _, ok := legal[d]; !ok && img.Kind != "cut" {
 				// is it exactly "the damaged entry was skipped, everything else applied"?
 				skip := len(run.accepted) - nEntries + img.Entry // index of the damaged entry's mutation
@@ -310,7 +364,7 @@ func TestC22(t *testing.T) {
 							modelApply(m, o)
 						}
 					}
-					if m.Digest(keyAlphabet, false) == d {
+					if m.Digest(allKeys, false) == d {
 						if ev.Known(id, sigNoopEntry) {
 							rec.Excluded(sigNoopEntry)
 							continue
